@@ -179,6 +179,21 @@ class CEMILData(CEMIData):
     def to_knx(self) -> bytes:
         """Serialize to KNX/IP raw data."""
         tpdu: bytes | bytearray
+        # the receiver derives the transport PDU from its octet and the destination
+        try:
+            _resolved = TPCI.resolve(
+                raw_tpci=self.tpci.to_knx(),
+                dst_is_group_address=self.address_type is CEMIAddressType.GROUP,
+                dst_is_zero=not self.dst_addr.raw,
+            )
+        except ConversionError as err:
+            raise ConversionError(
+                f"TPCI {self.tpci} invalid for destination {self.dst_addr!r}: {err}"
+            ) from err
+        if _resolved != self.tpci:
+            raise ConversionError(
+                f"TPCI {self.tpci} can not be encoded for destination {self.dst_addr!r}"
+            )
         if self.tpci.control:
             if self.payload is not None:
                 raise ConversionError(
